@@ -58,6 +58,9 @@ type Supervisor struct {
 	Self     string // path of this executable
 	VerifDir string
 	Workers  int
+	// ExtraEnv is added to the environment of worker processes (Engine F phase).
+	ExtraEnv []string
+	markF    bool
 }
 
 func (s *Supervisor) spawn() (*proc, error) {
@@ -66,7 +69,7 @@ func (s *Supervisor) spawn() (*proc, error) {
 	if s.Prop.Bubble {
 		procs = "GOMAXPROCS=1" // fewer schedules between quiescent points; workers are processes anyway
 	}
-	cmd.Env = append(os.Environ(), procs, "GOTRACEBACK=all")
+	cmd.Env = append(append(os.Environ(), procs, "GOTRACEBACK=all"), s.ExtraEnv...)
 	stdin, err := cmd.StdinPipe()
 	if err != nil {
 		return nil, err
@@ -234,6 +237,13 @@ type Outcome struct {
 	ShrinkEvals  int
 	Confirmations []string
 	Unconfirmed   []string
+	ILSigs        map[uint64]struct{}
+	ILSteps       uint64
+	FRuns         int64
+	FSteps        uint64
+	FSchedules    int
+	FWall         time.Duration
+	FNote         string
 }
 
 // oneEval runs a single tape (or seeded index) in a fresh-or-reused dedicated worker and converts a
@@ -372,6 +382,15 @@ func (s *Supervisor) Search(budget time.Duration) *Outcome {
 						o.SigsCapped = true
 					}
 				}
+				for _, sg := range rep.ILSigs {
+					if o.ILSigs == nil {
+						o.ILSigs = map[uint64]struct{}{}
+					}
+					if len(o.ILSigs) < 3_000_000 {
+						o.ILSigs[sg] = struct{}{}
+					}
+				}
+				o.ILSteps += rep.ILSteps
 				if len(o.NontrivialI) < 3 {
 					o.NontrivialI = append(o.NontrivialI, rep.NontrivialI...)
 				}
@@ -430,6 +449,13 @@ func findFailure(r *Result, key string) Failure {
 		}
 	}
 	return Failure{}
+}
+
+// MinimiseF is Minimise for the Engine F phase (the supervisor copy points at the instrumented binary);
+// the replay file is marked so that replay.sh builds the instrumented binary again.
+func (s *Supervisor) MinimiseF(o *Outcome, key string, budget time.Duration) (string, *Result, error) {
+	s.markF = true
+	return s.Minimise(o, key, budget)
 }
 
 // Minimise reproduces the failure with the given key from its tape, shrinks the tape, confirms the
@@ -535,7 +561,11 @@ func (s *Supervisor) Minimise(o *Outcome, key string, budget time.Duration) (str
 	}
 	o.Confirmations = append(o.Confirmations, fmt.Sprintf("%s reproduced %d/%d", key, got, attempts))
 	f := findFailure(last, key)
-	rf := &ReplayFile{Property: s.Prop.ID, Engine: s.Prop.Engine, Tier: s.Tier, Seed: s.Seed,
+	engine := s.Prop.Engine
+	if s.markF {
+		engine = "F"
+	}
+	rf := &ReplayFile{Property: s.Prop.ID, Engine: engine, Tier: s.Tier, Seed: s.Seed,
 		RunIndex: first.Index, Minimised: minimised, Tape: tp, Script: script, Violation: f, Log: last.Log,
 		RepoTree: RepoTreeID()}
 	path, err := s.WriteReplay(rf)
